@@ -51,6 +51,10 @@ CHECKS = {
    "schemas of constants over every const type x literal form, enums at the limits of all base types, [flags] enums with seeded expression trees to depth 4 and opcodes in all spellings are generated under three option sets, compiled, and every generated constant's value and Go type is read back at run time through a registry inside the generated package and compared with the harness's own evaluation of the literal",
    "held on the constants generated (984 quick / ~5000 thorough per run); flag expressions limited to precedence-independent ones; float literals with negative exponents are rejected by the tokenizer and hence outside 'accepted schemas'",
    "runtime monitoring: compile-and-run readback of generated constants against an independent literal evaluator"),
+ "C06": ("fault_enumeration",
+   "for every record type of the codec corpus and several boundary-driven values with distinct encodings, EVERY cut point 0 <= k < len is executed against UnmarshalBebop (exactly sized buffer) and DecodeBebop (metering reader; EOF, io.ErrUnexpectedEOF and generic error endings) in driver children; per cut: error returned, no panic / process death / runaway / CPU budget, exact allocation within 64KiB + 1024*len",
+   "exhaustive over cut points per encoding, sampled over values and schemas (matrix complete for single shapes x contexts); 6.6e5 cuts per quick run",
+   "runtime monitoring: exhaustive truncation fault enumeration with boundary monitors (panic, runaway, CPU, allocation meters)"),
 }
 DESIGN = {i: "DESIGN.md section 4, %s" % i for i in CHECKS}
 
